@@ -126,13 +126,16 @@ Fixpoint x_run_io (snap : list (Z * Z)) (s : xst) : xst :=
       end
   end.
 
+(* the SIGINT watch of tickit_run (negative number): invoked like any other, not logged *)
+Definition x_sig_fire (s : xst) (w : sgw) (sig : Z) : xst := if g_id w <? 0 then s else xemit s (g_id w) KSig EV_FIRE sig.
+
 Fixpoint x_run_sig (ids : list Z) (sig : Z) (s : xst) : xst :=
   match ids with
   | [] => s
   | i :: r =>
       match find_sgw i (x_sgs s) with
       | None => x_run_sig r sig s
-      | Some w => x_run_sig r sig (x_actions (xemit s i KSig EV_FIRE sig) (env (g_cb w)))
+      | Some w => x_run_sig r sig (x_actions (x_sig_fire s w sig) (cb_acts env w))
       end
   end.
 
@@ -177,12 +180,16 @@ Definition x_iteration (sleep : bool) (s : xst) : xst :=
 Definition x_set_run (s : xst) (v : bool) : xst :=
   mkX (x_ios s) (x_tab s) (x_sgs s) (x_def s) (x_kpend s) (x_ready s) (x_inwait s) (x_next s) (x_iter s) (x_log s) v.
 
+Definition x_set_sgs (s : xst) (v : list sgw) : xst :=
+  mkX (x_ios s) (x_tab s) v (x_def s) (x_kpend s) (x_ready s) (x_inwait s) (x_next s) (x_iter s) (x_log s) (x_run s).
+
 (* tickit_tick: one iteration, whatever the callbacks did to the loop's run flag *)
 Definition x_tick (sleep : bool) (s : xst) : xst := x_iteration sleep (x_set_run s true).
 
 (* tickit_run: iterations until a callback has called tickit_stop; the harness does so itself
    in the k-th iteration.  Everything an iteration owes -- the deferred callbacks, then the IO
-   snapshot or the delivered signals -- is done in full even if a callback stopped the loop *)
+   snapshot or the delivered signals -- is done in full even if a callback stopped the loop.
+   tickit_run watches SIGINT for its duration with a callback that stops the loop. *)
 Fixpoint x_run_passes (k : nat) (s : xst) : xst :=
   match k with
   | O => s
@@ -206,7 +213,10 @@ Definition x_op (s : xst) (o : sop) : xst :=
   | SArrive sg =>
       mkX (x_ios s) (x_tab s) (x_sgs s) (x_def s) (x_kpend s) (x_ready s) (x_inwait s ++ [sg])
           (x_next s) (x_iter s) (x_log s) (x_run s)
-  | SRunLoop k => x_run_passes k (x_set_run s true)
+  | SRunLoop k =>
+      let s1 := x_set_sgs (x_set_run s true) (remove_sgw INT_ID (x_sgs s) ++ [int_watch]) in
+      let s2 := x_run_passes k s1 in
+      x_set_sgs s2 (remove_sgw INT_ID (x_sgs s2))
   end.
 
 Definition xspec_run (ops : list sop) : list obs := rev (x_log (x_destroy (fold_left x_op ops xst0))).
